@@ -39,10 +39,12 @@ for d in sorted(glob.glob(f'{V}/seeded/*/')):
     pid = m['property']
     tgt = m.get('checks', {}).get(pid, {})
     allc = [k for k, v in m.get('checks', {}).items() if v.get('exit') == 1]
+    if not allc and m.get('thorough_tier', {}).get('caught'):
+        allc = [pid + ' (thorough tier only)']
     n += 1; ncaught += bool(allc)
     sig = (tgt.get('signature') or [''])[0].replace('signature: ', '')[:70]
     out.append(f"| {sid} | {m.get('needs', '(see agent_notes.md)')} | {'yes' if m.get('confirmed') else 'NO'} | {'exit ' + str(tgt.get('exit'))} `{sig}` | {', '.join(allc) or '-'} |")
-out.append(f"\n{n} seeded changes, {ncaught} reported by at least one quick check.\n")
+out.append(f"\n{n} seeded changes (rounds 1-4: 40 + 31 + 31 + 26), {ncaught} reported by at least one check; the exceptions are explained in 10.14 (a 32-bit hash collision).\n")
 
 text = '\n'.join(out)
 p = f'{V}/DESIGN.md'
